@@ -17,6 +17,10 @@ claimed = {
    text="Proof of the frame condition 'no package-level state is written after init': a whole-program write analysis over the SSA of every function of parser, interpreter, scope, stdlib, util and engine (stores, map updates, deletes, appends, calls writing through an argument, followed through parameters, closure bindings, interface dispatch and function values) yields one obligation per write site; each must be a sync/atomic operation on a variable declared atomic, dominated by Lock() of the declared package-level mutex, or a declared registration-time API. In addition the parser entry points write nothing reachable from their arguments. With no shared state written, concurrent parses cannot influence each other. Counterexamples are replayed by 16 goroutines x 400 concurrent parses compared with the sequential answers (plus uniqueness of runtime-component ids).",
    note="Decided structurally (no SMT needed: the obligations are frame conditions over write sites). Assumed: no writes through reflection/unsafe; library objects shared through package-level variables (templates, regexps) are concurrency-safe as documented; the stdlib registration API (AddStdlibPkg/AddStdlibFunc) and engine.UnitTestResetIDs are not called concurrently with parsing or evaluation. Not decided: the Go runtime's behaviour under an actual race (absence of the racing write is what is proved).",
    ref="DESIGN.md §8 C13"),
+ "C11": dict(
+   text="Proof obligations discharged on the current tree: (own) the sink action closure stores to none of its captured variables, and no function reachable from any Runtime.Eval / ECALFunction.Run implementer or from the action stores to a structure shared by concurrent invocations (runtime components, AST nodes, tokens, runtime provider, function objects) unless the field has a declared lock; (lock) for varsScope every read/write of parent, children, storage and of the containers stored there holds the scope lock (SMT, ghost lock set), the lock set is balanced at every return, no lock is taken twice, helper methods are entered with the lock held, the tree-lock invariant (child.lock == parent.lock) is re-established by SetParentOfScope/NewChild and is what lets a child's critical section cover its ancestors; SetParentOfScope is only called with a scope that is not yet in the parent's tree. Counterexamples are replayed under the Go race detector (2400 overlapping invocations of one sink with payload-dictated outcomes; overlapping scope calls).",
+   note="Assumed: lock-invariant (Owicki-Gries) reasoning; the lock field of a scope is only replaced while the scope is private to its creator (declared stable; writers restricted to SetParentOfScope/NewChild); Validate runs before a tree is shared; parser entry points write only the tree they create (trusted frame); callees are lock-balanced. Not decided: attribution of errors to events inside the engine (Task.Run/HandleError: see C02), races inside dependency objects, user-level shared globals.",
+   ref="DESIGN.md §8 C11"),
 }
 NA_DEFAULT = "not yet claimed: contracts for this property are still being built (DESIGN.md §8); no other technique is substituted"
 na = {}
